@@ -76,6 +76,10 @@ def generate(rng, tier, index):
                      "hmac": hx(bytes(rng.getrandbits(8) for _ in range(16))),
                      "iv": None if rng.random() < 0.5 else hx(_iv(rng)),
                      "wrong_keys": [hx(bytes(rng.getrandbits(8) for _ in range(16))) for _ in range(8)]})
+        if rng.random() < 0.1:
+            # keys are 16 arbitrary bytes: the ends of the range and text-like values are keys like any other
+            pkts[-1][rng.choice(["hmac", "hmac", "aes"])] = hx(rng.choice([bytes(16), b"\xff" * 16, bytes(15) + b"\x01", b"\x80" + bytes(15),
+                                                                         b"0" * 16, b" " * 16, b"\x00" * 8 + b"\xff" * 8]))
         if shared:
             pkts[-1]["aes"], pkts[-1]["hmac"], pkts[-1]["iv"] = shared
     if rng.random() < 0.3:
